@@ -125,7 +125,12 @@ func RunShard(prop *Prop, tier string, seed uint64, shard, of int, skip map[int]
 		st.Runs = 1
 		st.Events = len(plan.Events)
 		res.Stats.Merge(st)
-		res.Digest = Hash64(res.Digest ^ Hash64(uint64(run)+1) ^ st.digest())
+		vh := uint64(0)
+		if v != nil {
+			vh = HashStr(0, v.Oracle+v.Sig)
+		}
+		// commutative, so that the batch digest does not depend on the sharding
+		res.Digest += Hash64(Hash64(uint64(run)+1) ^ st.digest() ^ vh)
 		if prop.NonTrivial == nil || prop.NonTrivial(plan) {
 			s := plan.Signature()
 			if _, ok := sigSeen[s]; !ok {
@@ -330,7 +335,7 @@ func RunCheck(prop *Prop, tier string, seed uint64, workers int, verifDir string
 			samples = append(samples, r.Samples...)
 		}
 		failing = append(failing, r.Violations...)
-		digest = Hash64(digest ^ r.Digest ^ uint64(i+1))
+		digest += r.Digest
 	}
 	failing = append(failing, crashed...)
 	sort.Slice(failing, func(i, j int) bool { return failing[i].Run < failing[j].Run })
